@@ -58,6 +58,11 @@ type c10handler struct {
 	arg   uint32
 	queue chan *net.Message
 	small bool
+	// registered with AddHandler: the endpoint owns a 10-slot queue and a
+	// goroutine that hands each message to this function
+	fn  bool
+	mu  sync.Mutex
+	got []*net.Message
 }
 
 func (h *c10handler) match(typ uint8, service, id uint32) bool {
@@ -153,6 +158,10 @@ func (c10) Run(c *core.Case, env *core.Env) {
 		case 3:
 			h.kind = "none"
 		}
+		if hr.IntN(4) == 0 {
+			h.fn = true
+			h.small = total > 10 // its queue of 10 may overflow
+		}
 		st.handlers = append(st.handlers, h)
 	}
 	// a handler with a deliberately small queue, at a drawn position of the
@@ -167,9 +176,20 @@ func (c10) Run(c *core.Case, env *core.Env) {
 	install := func(e net.EndPoint) {
 		for _, h := range st.handlers {
 			h := h
-			e.MakeHandler(func(hdr *net.Header) (bool, bool) {
+			filter := func(hdr *net.Header) (bool, bool) {
 				return h.match(hdr.Type, hdr.Service, hdr.ID), true
-			}, h.queue, nil)
+			}
+			if h.fn {
+				e.AddHandler(filter, func(m *net.Message) error {
+					h.mu.Lock()
+					h.got = append(h.got, m)
+					h.mu.Unlock()
+					return nil
+				}, nil)
+				env.Probe("handlers-with-consumer-function")
+				continue
+			}
+			e.MakeHandler(filter, h.queue, nil)
 		}
 	}
 	var ea net.EndPoint
@@ -321,7 +341,18 @@ func (c10) Check(c *core.Case, env *core.Env, res zzsim.Result, v *core.Verdict)
 	if v.Stats.Steps > 0 && res.Quiescent {
 		for hi, h := range st.handlers {
 			var got []uint32
-			for {
+			if h.fn {
+				h.mu.Lock()
+				for _, m := range h.got {
+					got = append(got, m.Header.ID)
+					w := want[m.Header.ID]
+					if !bytes.Equal(m.Payload, w.payload) || m.Header.Type != w.typ {
+						bad("message-altered", "handler %d received message %#x altered", hi, m.Header.ID)
+					}
+				}
+				h.mu.Unlock()
+			}
+			for !h.fn {
 				select {
 				case m := <-h.queue:
 					if m == nil {
